@@ -152,6 +152,15 @@ func solveFile(file string, timeoutS int, seed int, needAgree int) SolveResult {
 	if allTimeout {
 		res.Status = "timeout"
 	}
+	allError := len(res.All) > 0
+	for _, s := range res.All {
+		if s != "error" {
+			allError = false
+		}
+	}
+	if allError {
+		res.Status = "solver-error: " + strings.ReplaceAll(truncate(res.Output, 300), "\n", " ")
+	}
 	return res
 }
 
